@@ -174,15 +174,13 @@ Definition pbar_get (s : st) (c p : Z) : option bar :=
 Definition pbar_set (l : list (Z * Z * bar)) (c p : Z) (b : bar) : list (Z * Z * bar) :=
   map (fun x => if pbar_key_eqb (fst x) c p then (fst x, b) else x) l.
 
-(* RemovePartitionInfo on one record: the name is removed from the (shared) map only if it maps to this very id *)
+(* removePartitionInfo on one record, when its shard has read the drop message: the barrier entry goes, the partition is marked
+   dropping (both under the source id).  The name stays in the (shared) map - the other shards still need it for their own drop
+   message -; the barrier's callback forgets it when every shard has read the message (forget_fired below). *)
 Definition remove_part (hp : list (nat * pmap)) (r : trec) (name : string) (id : Z) : list (nat * pmap) * trec :=
-  let m := match nlookup hp (t_parts r) with Some m => m | None => [] end in
-  let hp' := match alookup m name with
-             | Some i => if Z.eqb i id then map (fun x => if Nat.eqb (fst x) (t_parts r) then (fst x, aremove m name) else x) hp else hp
-             | None => hp end in
-  (hp', {| t_tcoll := t_tcoll r; t_name := t_name r; t_tvch := t_tvch r; t_tpch := t_tpch r; t_parts := t_parts r;
-           t_dropped := t_dropped r; t_dropping := if zmem id (t_dropping r) then t_dropping r else t_dropping r ++ [id];
-           t_barw := t_barw r; t_pbars := zremove (t_pbars r) id |}).
+  (hp, {| t_tcoll := t_tcoll r; t_name := t_name r; t_tvch := t_tvch r; t_tpch := t_tpch r; t_parts := t_parts r;
+          t_dropped := t_dropped r; t_dropping := if zmem id (t_dropping r) then t_dropping r else t_dropping r ++ [id];
+          t_barw := t_barw r; t_pbars := zremove (t_pbars r) id |}).
 
 Definition fresh_ref (hp : list (nat * pmap)) : nat := S (fold_left (fun a x => Nat.max a (fst x)) hp O).
 
@@ -546,6 +544,30 @@ Definition materialise (s : st) : st :=
     end) keys s.
 Definition settle (s : st) : st := materialise (with_mg s (settle_mg 64 (mg s)) (wsh s)).
 
+(* the callback of a partition barrier, after it has handed the drop request over: RemovePartitionInfo on the handlers of the
+   collection forgets the partition's name in their (shared) map - whatever id it stands for there, the map holds downstream ids
+   and a missing name is learnt again from the downstream.  The name is the one of the drop message whose label completed the
+   barrier. *)
+Definition forget_name (s : st) (c : Z) (name : string) : st :=
+  match find (fun h => match zlookup (h_recs h) c with Some _ => true | None => false end) (handlers s) with
+  | Some h =>
+      match zlookup (h_recs h) c with
+      | Some r => upd_state s (dcolls s) (dparts s)
+                    (map (fun x => if Nat.eqb (fst x) (t_parts r) then (fst x, aremove (snd x) name) else x) (heap s))
+                    (cbars s) (pbars s) (events s)
+      | None => s
+      end
+  | None => s
+  end.
+Definition forget_fired (l : label) (before after : st) : st :=
+  match l with
+  | Feed _ _ _ p _ =>
+      fold_left (fun s m =>
+                   if mkind_eqb (m_kind m) KDropPart && zmem (m_part m) (dparts after) && negb (zmem (m_part m) (dparts before))
+                   then forget_name s (m_coll m) (m_pname m) else s) (p_msgs p) after
+  | _ => after
+  end.
+
 Definition step (retries : nat) (s : st) (l : label) : st :=
   let s' :=
   match l with
@@ -651,7 +673,7 @@ Definition step (retries : nat) (s : st) (l : label) : st :=
          pbars := filter (fun x => negb (Z.eqb (fst (fst x)) c)) (pbars s); pbar_handlers := pbar_handlers s; keymap := keymap s;
          out := out s; events := events s; alive := alive s; mg := mg s; wsh := wsh s |}
   end in
-  fire_pbars (fire_cbars s').
+  forget_fired l s (fire_pbars (fire_cbars s')).
 
 Definition init : st :=
   {| dcolls := []; dparts := []; handlers := []; clocks := []; heap := []; cbars := []; pbars := []; pbar_handlers := []; keymap := [];
